@@ -3,6 +3,7 @@ Helper lemmas for the writer families (C03, C05, C06): byte-string slicing, reco
 concatenations of encoded fields, `wr` frames, the output stream (`adjust` + `write`).
 -/
 import ElfioVerif.Model.Writer
+import ElfioVerif.Lemmas.WriterSites
 import ElfioVerif.Lemmas.Records
 import ElfioVerif.Props.C08
 set_option linter.unusedSimpArgs false
@@ -397,7 +398,7 @@ theorem wsdStep_frame {c : Cls} {g : Seg} {ss : BitVec 64} {st st' : WsdSt} {idx
           apply Placed.off
           split
           · rename_i hn
-            exact Placed.addr _ (Placed.refl _) (by simpa using hn)
+            exact Placed.addr _ (Placed.refl _) (by simpa [wsd_addr_missing] using hn)
           · exact Placed.refl _
 
 theorem wsdLoop_frame {c : Cls} {g : Seg} {ss : BitVec 64} (l : List (BitVec 16)) {st st' : WsdSt}
@@ -487,6 +488,7 @@ theorem layoutSegment_eq (c : Cls) (phoff : BitVec 64) (pe pn : BitVec 16) (lay 
         | none => pure none
         | some st => pure (some (st.lay, segFinish c g p.2.1 st))) := by
   unfold layoutSegment segStartOf
+  simp only [lseg_has_members0_count, lseg_has_members_count, lseg_fresh_count, decide_eq_true_eq]
   cases g.secs.head? with
   | none =>
     simp only [pure_bind]
@@ -1567,7 +1569,7 @@ theorem layoutLoose_eq (c : Cls) (segs : List Seg) (l : List SecBuf) (i : Nat) (
   | cons s rest ih =>
     unfold layoutLoose looseSpec
     split
-    · simp only
+    · simp only [lsws_advance_eq]
       rw [ih]; simp
     · rw [ih]; simp
 
@@ -1707,9 +1709,10 @@ theorem wsdStep_eq (c : Cls) (g : Seg) (ss : BitVec 64) (st : WsdSt) (idx : BitV
       | none => rfl
       | some gap =>
         simp only
+        rw [wsd_generated_skip_eq]
         by_cases hgen : generated = true
         · rw [if_pos hgen, if_pos hgen]; rfl
-        · rw [if_neg hgen, if_neg hgen]
+        · rw [if_neg hgen, if_neg hgen, wsd_addr_missing_eq, wsd_occupies_eq]
           obtain ⟨e1, e2⟩ := stepPlace_fields c g ss sec (wsd_cursor_gap st.lay.pos gap)
           unfold stepPlace at e1 e2 ⊢
           simp only [e1, e2, applyOut]
